@@ -31,9 +31,13 @@ uint32_t g_popser;    /* serial of the element a pop removes (pre-state) */
                       g_reloc_count == 0 && !g_freed_w && g_allocs == 0 && g_frees == 0 && g_reallocs == 0)
 /* moved-from state: owns nothing; only destruction and assignment-to are valid */
 #define RB_HOLLOW(s) ((s)->m_capacity == 0 && (s)->m_size == 0 && (s)->m_data == 0)
+/* physical index of the last element as resize computes it, and the condition of its "just reallocate" branch */
+#define LASTIDX(s) ((s)->m_size == 0 ? ((s)->m_pos == 0 ? SCAP(s) - 1 : (s)->m_pos - 1) : PHYS((s)->m_pos, (s)->m_size - 1, (s)->m_capacity))
+#define BR_REALLOC(s, n) ((s)->m_pos <= LASTIDX(s) && (size_t)LASTIDX(s) < (n))
 #define MINZ(a, b) ((a) < (b) ? (a) : (b))
 #define NO_ALLOC (g_allocs == 0 && g_frees == 0 && !g_freed_w)
 
 uint32_t g_kser;
+int g_case;           /* proof case selector (harness-chosen) */
 ssize_t g_a_pos, g_b_pos; size_t g_a_size, g_b_size, g_a_cap, g_b_cap, g_a_data, g_b_data;
 #endif
